@@ -47,7 +47,11 @@ def get (m : Mode) (parse : Nat → Option Nat) (s : State) (h : Nat) : State ×
     let miss : State × Option Nat × Lookup :=
       match parse f.content with
       | none => (s, none, .broken)                       -- skipped (or an error): nothing is stored
-      | some d => ({ s with cache := set s.cache h (some (key m f, d)) }, some d, .miss)
+      | some d =>
+        -- the entry is stored; then `_clean_item_cache` drops the entries of names that have no file (it runs
+        -- after the first miss of a request)
+        ({ s with cache := fun x => if x = h then some (key m f, d) else if (s.files x).isSome then s.cache x else none },
+         some d, .miss)
     match s.cache h with
     | some (k, d) => if k = key m f then (s, some d, .hit) else miss
     | none => miss
